@@ -74,15 +74,31 @@ async fn ensure_local_authority_with_paths(
             );
 
             if matches!(pid_liveness, ripd::PidLiveness::Dead) {
-                let cleaned = ripd::try_cleanup_stale_authority_files(
-                    &data_dir,
-                    meta.pid,
-                    meta.started_at_ms,
-                )
-                .map_err(anyhow::Error::msg)?;
-                if cleaned {
-                    backoff_ms = 20;
-                    continue;
+                if ripd::authority_lock_path(&data_dir).exists() {
+                    let cleaned = ripd::try_cleanup_stale_authority_files(
+                        &data_dir,
+                        meta.pid,
+                        meta.started_at_ms,
+                    )
+                    .map_err(anyhow::Error::msg)?;
+                    if cleaned {
+                        backoff_ms = 20;
+                        continue;
+                    }
+                } else {
+                    // meta.json of a dead authority without lock.json (a cleanup that was interrupted
+                    // between its two renames): nothing holds the store and stale cleanup has nothing to
+                    // key on, so start an authority; its write_meta replaces the stale file.
+                    let spawn_cooldown = Duration::from_millis(500);
+                    if last_spawned_at
+                        .map(|since| since.elapsed() > spawn_cooldown)
+                        .unwrap_or(true)
+                    {
+                        spawn_local_authority(&data_dir, &workspace_root)?;
+                        last_spawned_at = Some(std::time::Instant::now());
+                        backoff_ms = 20;
+                        continue;
+                    }
                 }
             }
         } else {
